@@ -56,7 +56,7 @@ def run(chk):
     jobs.append(("Trace_Tok", kcfg, tt, "selection methods"))
     # numeric methods with lengths up to 999 (the O(n) definitions; the O(n^2) ones -- TRIMA, HMA, medians -- up to 299)
     tn = os.path.join(wd, "num16_SMA.ndjson")
-    for subj, pmax in [("SMA", 1000), ("WMA", 1000), ("LinReg", 1000), ("StDev", 1000), ("Momentum", 1000), ("TRIMA", 300), ("MedianAbsDev", 300)][: 4 if quick else 7]:
+    for subj, pmax in [("SMA", 1000), ("WMA", 1000), ("HMA", 400), ("LinReg", 1000), ("StDev", 1000), ("Momentum", 1000), ("TRIMA", 300), ("MedianAbsDev", 300)][: 5 if quick else 8]:
         tn2 = os.path.join(wd, "num16_%s.ndjson" % subj)
         subprocess.run([y16, "num-record", "fin", str(chk.seed), "2", "10" if quick else "30", "1", tn2, subj], env=dict(os.environ, YV_PMAX=str(pmax)),
                        check=True, stdout=subprocess.DEVNULL)
@@ -68,6 +68,11 @@ def run(chk):
         subprocess.run([f32, "num-record", fam, str(chk.seed * 10 + i), "19", "60" if quick else "200", "0", tf], check=True, stdout=subprocess.DEVNULL)
         jobs.append(("Trace_Num", ncfg, tf, "value_type_f32 " + fam))
 
+    # selections (incl. the median's sorted slice and binary searches) at single precision: positive and negative values, ties, +-0
+    for fam in ["sel", "rev"]:
+        tt32 = os.path.join(wd, "tok32_%s.ndjson" % fam)
+        subprocess.run([f32, "tok-record", fam, str(chk.seed + 5), "14" if quick else "42", "200" if quick else "600", tt32], check=True, stdout=subprocess.DEVNULL)
+        jobs.append(("Trace_Tok", "Trace_Tok.cfg", tt32, "value_type_f32 " + fam))
     # Action::from(ValueType) at single precision: the From<f64> step function of MC_Action replayed on the f32 build
     ar = tlc("MC_Action", "MC_Action_float.cfg", workers=4, timeout=1200, tags=("BAD", "FROW"))
     if ar.error or ar.violation:
